@@ -229,7 +229,7 @@ func (s Schema) JSONLookup(token string) (interface{}, error) {
 
 	if token == "$schema" && s.Schema != "" {
 		// the field is tagged json:"-" and encoded by hand: not reachable by struct tag
-		return s.Schema, nil
+		return string(s.Schema), nil
 	}
 
 	r, _, err := jsonpointer.GetForToken(s.SchemaProps, token)
